@@ -672,6 +672,8 @@ impl Engine for PortEngine {
             let parts = http::Request::get(uri.clone()).body(()).unwrap().into_parts().0;
             let mut cfg = TcpTransportConfig::default();
             cfg.connect_timeout = Some(std::time::Duration::from_secs(2));
+            // every setting of the concurrency reaches the one listener: a refused decoy is followed by the next address
+            cfg.happy_eyeballs_concurrency = [Some(2), Some(0), Some(1), None][(c.answer_port / 5 % 4) as usize];
             let result: Result<SocketAddr, String> = if c.simple {
                 let t: SimpleTcpTransport<_, TcpStream> = SimpleTcpTransport::new(cfg, ListResolver(answer.clone()).first_addr());
                 match t.oneshot(parts).await {
